@@ -252,6 +252,16 @@ func (x *Exec) choice(name string, n int) int {
 		panic(endPath{"empty choice " + name})
 	}
 	var k int
+	// a named choice is one input of the run: asking again gives the same
+	// value (as the native implementation reads it from the replay file by name)
+	if name != "" {
+		if prev, ok := x.choices[name]; ok {
+			if prev >= n {
+				return 0
+			}
+			return prev
+		}
+	}
 	if d, ok := x.next(); ok {
 		if !strings.HasPrefix(d, "c") {
 			panic(fmt.Sprintf("decision mismatch: got %q at choice %s", d, name))
